@@ -220,7 +220,7 @@ def search(rng, tier, mism_cases):
         yield c
 
 
-LEVEL_TEXT = ("Machine-checked Coq theorems over exact rationals for ALL instants, domains and ranges: the time scale is "
+LEVEL_TEXT = ("Machine-checked Coq theorems over exact rationals for ALL instants and ALL non-degenerate domains and ranges (the property's own hypothesis): the time scale is "
               "lin o to_ms (to_ms additive and strictly monotone in the calendar order), maps the domain instants to the "
               "range ends, every instant proportionally to elapsed time (equal durations -> equal lengths), strictly "
               "monotonically, and invert(scale(t)) = t exactly; the model is tied to labella/scale.py by differential "
